@@ -19,7 +19,16 @@ Example C06_pin_regex_builder :
   Gen.RoutingGen.CONSTS_merge_segments = [".*"; "(?:/.*)?"; "/"] /\
   Gen.RoutingGen.CONSTS_how_many_named_segments = ["{"] /\
   Gen.RoutingGen.CONSTS_to_regex = ["^"; "$"] /\
-  Gen.RoutingGen.CONSTS_key = [""].
+  Gen.RoutingGen.CONSTS_key = [""] /\
+  Gen.RoutingGen.RETURNS_convert_segment_to_regex =
+    ["re.escape(segment)"; "f'({group_name}{sub_regex})'"; "'.*'"; "'[^/]+'";
+     "self._convert_segment_to_regex('{' + f'{segment}=*' + '}')"] /\
+  Gen.RoutingGen.REGEX_LITERAL = ["'re.compile({!r})'.format(self.to_regex().pattern)"] /\
+  Gen.RoutingGen.SAMPLE_REQUEST = ["sample = uri_sample.sample_from_path_template(self.field, self.path_template)";
+                                   "return json.dumps(sample)"] /\
+  Gen.RoutingGen.SAMPLE_FROM_PATH_TEMPLATE =
+    ["'{' in path_template"; "i = path_template.index('{')"; "j = path_template.index('}')"; "seg = path_template[i:j + 1]";
+     "seg = seg[seg.index('=') + 1:-1] if '=' in seg else '*'"; "path_template = path_template[:i] + seg + path_template[j + 1:]"].
 Proof. repeat split; reflexivity. Qed.
 Print Assumptions C06_pin_regex_builder.
 
@@ -30,8 +39,8 @@ Proof. exact reserved_no_dot. Qed.
 Print Assumptions C06_reserved_no_dot.
 
 (* ---- explicit routing ---- *)
-(* For every path template of the AIP class (aip_class: literal segments free of slash, star, braces, '=' and
-   regex metacharacters; an identifier as key; a non-empty named sub-template that may span several segments;
+(* For every path template of the AIP class (aip_class: literal segments of ANY text free of slash, star, braces
+   and '=' -- regex metacharacters included, the generator escapes them; an identifier as key; a non-empty named sub-template that may span several segments;
    a double star at most as the very last segment of the whole template) and every newline-free field value,
    what the emitted block writes into header_params -- the generator's regex, Python's re.match, the guard on a
    non-empty capture -- is exactly what the independent segment matcher prescribes; None for non-matching, empty
@@ -40,10 +49,7 @@ Theorem C06_routing_contribution_correct : forall (t : tmpl) (field v : string),
   aip_class t = true -> nl_free v = true ->
   contribution {| p_field := field; p_template := tmpl_print t |} v = Ok (aip_contribution t v) /\
   emit_param {| p_field := field; p_template := tmpl_print t |} =
-    (if t_short t then Err EValue                    (* {key}: sample_request raises, nothing is generated *)
-     else if repr_fits ("^" ++ rx_print (rx_of t) ++ "$")
-     then Ok (BRegex ("^" ++ rx_print (rx_of t) ++ "$") (disambiguated field) (t_key t))
-     else Err ETrunc).                               (* pattern repr longer than 200: the emitted line is cut *)
+    Ok (BRegex ("^" ++ rx_print (rx_of t) ++ "$") (disambiguated field) (t_key t)).
 Proof. exact routing_contribution_correct_l. Qed.
 Print Assumptions C06_routing_contribution_correct.
 
@@ -63,7 +69,7 @@ Example C06_ex_contribution :
   aip_class ex_tmpl = true /\
   aip_class_str "projects/*/{table_location=instances/*}/tables/**" = true /\
   aip_parse "projects/*/{table_location=instances/*}/tables/**" = Some ex_tmpl /\
-  aip_class_str "{k=**/x}" = false /\ aip_class_str "a.b/{k=*}" = false /\ aip_class_str "{a}/{b}" = false /\
+  aip_class_str "{k=**/x}" = false /\ aip_class_str "a.b/{k}" = true /\ aip_class_str "{a}/{b}" = false /\
   tmpl_print ex_tmpl = "projects/*/{table_location=instances/*}/tables/**" /\
   regex_str (tmpl_print ex_tmpl) = Ok "^projects/[^/]+/(?P<table_location>instances/[^/]+)/tables(?:/.*)?$" /\
   nl_free "projects/p 1/instances/i-2/tables/t/x" = true /\
@@ -88,15 +94,16 @@ Theorem C06_newline_final_refuted :
 Proof. exact newline_final_refuted_l. Qed.
 Print Assumptions C06_newline_final_refuted.
 
-(* the class is tight: literal text is copied into the pattern unescaped, so a dot is a wildcard *)
-Theorem C06_unescaped_literal_refuted :
-  exists t v, nl_free v = true /\ tmpl_print t = "a.b/{k=*}" /\
-    contribution {| p_field := "f"; p_template := tmpl_print t |} v = Ok (Some ("k", "c")) /\
-    aip_contribution t v = None.
-Proof. exact unescaped_literal_refuted_l. Qed.
-Print Assumptions C06_unescaped_literal_refuted.
+(* literal text is matched literally (re.escape): the former witness 'a.b/{k=*}' on 'aXb/c' now sends nothing *)
+Example C06_escaped_literal :
+  aip_class t_dotted = true /\ tmpl_print t_dotted = "a.b/c+(d)/{k=*}" /\
+  regex_str "a.b/c+(d)/{k=*}" = Ok "^a\.b/c\+\(d\)/(?P<k>[^/]+)$" /\
+  contribution {| p_field := "f"; p_template := tmpl_print t_dotted |} "aXb/c+(d)/v" = Ok None /\
+  contribution {| p_field := "f"; p_template := tmpl_print t_dotted |} "a.b/c+(d)/v" = Ok (Some ("k", "v")).
+Proof. exact escaped_literal_ex. Qed.
+Print Assumptions C06_escaped_literal.
 
-(* ... and a double star that is not last is not "zero or more segments" for the regex *)
+(* the class is tight: a double star that is not last is not "zero or more segments" for the regex *)
 Theorem C06_dstar_inside_refuted :
   exists t v, nl_free v = true /\ tmpl_print t = "{k=**/x}" /\
     contribution {| p_field := "f"; p_template := tmpl_print t |} v = Ok None /\
@@ -126,10 +133,9 @@ Theorem C06_no_match_no_header : forall m ps req cs bs,
 Proof. exact no_match_no_header_l. Qed.
 Print Assumptions C06_no_match_no_header.
 
-(* the whole explicit block against the AIP reading of the annotation: every parameter without a template or with
-   a class template written with '=' whose pattern repr fits (sparam_ok), every value read newline-free *)
+(* the whole explicit block against the AIP reading of the annotation: parameters without a template or with a
+   class template (sparam_ok), every value read newline-free; an annotation without parameters sends nothing *)
 Theorem C06_explicit_header_spec : forall m sps req,
-  sps <> [] ->
   m_explicit m = Some (map sparam_param sps) -> m_client_streaming m = false ->
   forallb sparam_ok sps = true ->
   forallb (fun sp => nl_free (req (disambiguated (sp_field sp)))) sps = true ->
@@ -143,28 +149,31 @@ Definition ex_sps : list sparam :=
   [SPlain "app_profile_id";
    STmpl "table_name" {| t_pre := []; t_key := "routing_id"; t_short := false; t_sub := [SLit "projects"; SStar]; t_post := [SDstar] |};
    STmpl "table_name" {| t_pre := [SLit "projects"; SStar]; t_key := "routing_id"; t_short := false; t_sub := [SLit "instances"; SStar]; t_post := [SDstar] |};
-   STmpl "sub.class" {| t_pre := []; t_key := "k"; t_short := false; t_sub := [SStar]; t_post := [] |}].
+   STmpl "sub.class" {| t_pre := []; t_key := "k"; t_short := true; t_sub := [SStar]; t_post := [] |}].
 Definition ex_method : method := {| m_explicit := Some (map sparam_param ex_sps); m_http := no_http; m_client_streaming := false |}.
 Definition ex_req : request := fun path =>
   if String.eqb path "table_name" then "projects/p/instances/i/tables/t"
   else if String.eqb path "app_profile_id" then "a b" else if String.eqb path "sub.class_" then "x/y" else "".
 Example C06_ex_explicit :
-  ex_sps <> [] /\ forallb sparam_ok ex_sps = true /\
+  forallb sparam_ok ex_sps = true /\
   emit_metadata ex_method = Ok (EExplicit (map sparam_block ex_sps)) /\
   forallb (fun sp => nl_free (ex_req (disambiguated (sp_field sp)))) ex_sps = true /\
   contributions (map sparam_param ex_sps) ex_req =
     Ok [Some ("app_profile_id", "a b"); Some ("routing_id", "projects/p"); Some ("routing_id", "instances/i"); None] /\
   header_of ex_method ex_req = Ok (Some "app_profile_id=a+b&routing_id=instances/i") /\
   header_of ex_method (fun _ => "") = Ok None.
-Proof. split; [discriminate|]. vm_compute. repeat split; reflexivity. Qed.
-
-(* faithful to the code as it is: the {key} shorthand and an annotation without parameters stop the generator *)
-Example C06_generator_stops :
-  emit_param {| p_field := "name"; p_template := "{name}" |} = Err EValue /\
-  regex_str "{name}" = Ok "^(?P<name>[^/]+)$" /\
-  emit_metadata {| m_explicit := Some []; m_http := no_http; m_client_streaming := false |} = Err EUndef.
 Proof. vm_compute. repeat split; reflexivity. Qed.
-Print Assumptions C06_generator_stops.
+
+(* the {key} shorthand, a very long template and an annotation without parameters (which also switches the
+   implicit header off) are all generated *)
+Definition only_get (u : string) : http_rule := {| h_get := u; h_put := ""; h_post := ""; h_delete := ""; h_patch := ""; h_custom_path := "" |}.
+Example C06_formerly_failing :
+  emit_param {| p_field := "name"; p_template := "{name}" |} = Ok (BRegex "^(?P<name>[^/]+)$" "name" "name") /\
+  emit_metadata {| m_explicit := Some []; m_http := only_get "/v1/{name=**}"; m_client_streaming := false |} = Ok (EExplicit []) /\
+  header_of {| m_explicit := Some []; m_http := only_get "/v1/{name=**}"; m_client_streaming := false |} (fun _ => "x") = Ok None /\
+  header_of {| m_explicit := None; m_http := only_get "/v1/{name=**}"; m_client_streaming := false |} (fun _ => "x") = Ok (Some "name=x").
+Proof. vm_compute. repeat split; reflexivity. Qed.
+Print Assumptions C06_formerly_failing.
 Print Assumptions C06_ex_explicit.
 
 (* ---- implicit routing ---- *)
